@@ -148,12 +148,12 @@ class G:
 
 def inline_senders(rng, script):
     """An exclusive system can call the `World`-level senders in-line (`world.send_system_event`, `world.broadcast`,
-    `world.entity_event`: the event is delivered before the body goes on, after whatever the body queued so far — its own
+    `world.entity_event`, and `SystemCommand::apply(world)` for a manual run: delivered before the body goes on, after whatever the body queued so far — its own
     reader clean-up first) and can flush the world itself. Half of its sender actions take that form."""
     out = []
     for l in script:
         w = l.split()[0]
-        if w in ("sysevent", "broadcast", "entevent") and rng.random() < 0.5: out.append("d" + l)
+        if w in ("sysevent", "broadcast", "entevent", "run") and rng.random() < 0.5: out.append("d" + l)
         else: out.append(l)
         if rng.random() < 0.08: out.append("flush")
     return out
